@@ -323,6 +323,10 @@ def run(ctx):
         ctx.bad('C05.4-writers-equal', 'agree', 'one-shot and streaming writers differ: %s vs %s' % (sorted(sigs['frame_message']), sorted(sigs['write_framed'])),
                 key='WIRE:framing:writers-differ')
 
+    from ..families import check_error_swallow as _swallow
+    ctx.rule('C05.8-errors-surface', 'in the functions of this property that can themselves report failure, the Result of one of the repository\'s own fallible functions is never turned into "nothing" or a default (ok(), unwrap_or*, map_or*): an error must surface as an error, not as a value the callee never produced; a rule about what must not be there (exercised on the fixture every run)', floor=0)
+    _swallow(ctx, P, 'C05.8-errors-surface', ('edp_client::framing::', 'edp_client::transport::'))
+
 
 def read_calls_in_block(B, b):
     t = B.blocks[b]['t']
